@@ -2,6 +2,7 @@ package checks
 
 import (
 	"fmt"
+	"math"
 	"os"
 	"runtime"
 	"sort"
@@ -84,6 +85,15 @@ func c02Cases(thorough bool) []c02Case {
 		for _, l := range limits {
 			pages = append(pages, pageSpec{skip: s, limit: l.limit, none: l.none})
 		}
+	}
+	// limits and skips at the top of the integer range: skip+limit must not wrap around
+	for _, s := range []*int64{nil, i64p(1), i64p(2), i64p(5)} {
+		for _, l := range []int64{math.MaxInt64, math.MaxInt64 - 1, math.MaxInt64 - 2} {
+			pages = append(pages, pageSpec{skip: s, limit: i64p(l)})
+		}
+	}
+	for _, l := range []pageSpec{{}, {limit: i64p(1)}, {limit: i64p(math.MaxInt64)}, {none: true}} {
+		pages = append(pages, pageSpec{skip: i64p(math.MaxInt64), limit: l.limit, none: l.none}, pageSpec{skip: i64p(math.MaxInt64 - 1), limit: l.limit, none: l.none})
 	}
 	sortFields := []string{"id", "s", "i", "f", "b", "t"}
 	var sorts [][]rm.SortField
